@@ -117,3 +117,164 @@ pub fn colliding_pairs(vals: &mut Vec<(u64, u32)>, cap: usize, out: &mut BTreeSe
         i = j;
     }
 }
+
+// ------------------------------------------------------------------------------------------------------------------
+// Counters in static memory: found by watching, then fast-forwarded to just before each of their wrap-arounds.
+//
+// A word of static memory whose lowest byte only ever goes up by one (or stays) while a workload runs is a counter of
+// something the workload does.  Every value of such a counter is reachable by repeating that something often enough,
+// so writing "just below the next power of 256" into it puts the process into a state it would reach by itself after
+// 2^8, 2^16 or 2^32 of those events – and the property's own oracle is then run across the wrap.  The counter's true
+// width is never guessed: the next wider value is written only after a carry into the next byte has been *observed*.
+
+pub struct CounterRun {
+    pub counters_found: usize,
+    pub wraps_driven: Vec<String>,
+    /// (stage label, signature, description) from the workload's own oracle
+    pub violations: Vec<(String, String, String)>,
+    pub note: Option<String>,
+}
+
+/// `step` performs one operation of a cyclic, self-checking workload and returns Some((signature, description)) when the
+/// property's oracle is contradicted.  Single-threaded: no other thread of the process may run meanwhile.
+pub fn fast_forward_static_counters(regions: &Regions, step: &mut dyn FnMut() -> Option<(String, String)>, ops_per_stage: usize) -> CounterRun {
+    let mut out = CounterRun { counters_found: 0, wraps_driven: Vec::new(), violations: Vec::new(), note: None };
+    let (mut a, mut b) = (Vec::with_capacity(regions.bytes), Vec::with_capacity(regions.bytes));
+    // warm-up, then which bytes change at all while the workload runs
+    for _ in 0..ops_per_stage {
+        let _ = step();
+    }
+    regions.snapshot_into(&mut a);
+    regions.snapshot_into(&mut b);
+    if a != b {
+        out.note = Some("static memory changes between two snapshots with nothing in between; counter search abandoned".into());
+        return out;
+    }
+    let mut touched: BTreeSet<usize> = BTreeSet::new();
+    for _ in 0..ops_per_stage.min(512) {
+        regions.snapshot_into(&mut a);
+        let _ = step();
+        regions.snapshot_into(&mut b);
+        for (i, (x, y)) in a.iter().zip(b.iter()).enumerate() {
+            if x != y {
+                touched.insert(i);
+            }
+        }
+        if touched.len() > 256 {
+            out.note = Some(format!("{} bytes of static memory change while the workload runs; counter search abandoned", touched.len()));
+            return out;
+        }
+    }
+    if touched.is_empty() {
+        return out;
+    }
+    // a counter's lowest byte: every change is +1 (mod 256), and it does change
+    let cands: Vec<usize> = touched.iter().map(|o| regions.addr(*o)).filter(|a| *a != 0).collect();
+    let rd = |addr: usize| -> u8 { unsafe { std::ptr::read_volatile(addr as *const u8) } };
+    let mut last: Vec<u8> = cands.iter().map(|c| rd(*c)).collect();
+    let mut ok: Vec<bool> = vec![true; cands.len()];
+    let mut incs: Vec<u32> = vec![0; cands.len()];
+    for _ in 0..ops_per_stage {
+        let _ = step();
+        for (i, c) in cands.iter().enumerate() {
+            let v = rd(*c);
+            if v == last[i].wrapping_add(1) {
+                incs[i] += 1;
+            } else if v != last[i] {
+                ok[i] = false;
+            }
+            last[i] = v;
+        }
+    }
+    let lows: Vec<usize> = cands.iter().enumerate().filter(|(i, _)| ok[*i] && incs[*i] >= 8).map(|(_, c)| *c).collect();
+    // a byte that carries out of a lower counter byte looks like a slow counter itself: keep only the lowest byte of a run
+    let lows: Vec<usize> = lows.iter().copied().filter(|c| !lows.contains(&(c.wrapping_sub(1)))).collect();
+    out.counters_found = lows.len();
+    for base in lows.iter().take(8) {
+        let mut width = 1usize; // bytes known to belong to the counter
+        loop {
+            let low = |w: usize| -> u64 { (0..w).fold(0u64, |acc, i| acc | (rd(base + i) as u64) << (8 * i)) };
+            let (mut wrapped_any, mut carried_any, mut above_moved_otherwise) = (false, false, false);
+            // several distances from the wrap, so that the wrapping operation falls on different positions of the workload
+            for margin in 12u64..28 {
+                // just below the wrap of the `width` low bytes; the bytes above are left as they are
+                let target: u64 = (1u64 << (8 * width)) - margin;
+                for i in 0..width {
+                    // SAFETY: `base..base+width` are bytes of this process's static memory that the workload itself was seen to
+                    // write as one counter (carry observed from each byte into the next); no other thread is running
+                    unsafe { std::ptr::write_volatile((base + i) as *mut u8, (target >> (8 * i)) as u8) };
+                }
+                let label = format!("counter at static+{:#x} set to 2^{}-{}", base & 0xFFFF, 8 * width, margin);
+                let mut wrapped = false;
+                let (mut prev_low, mut prev_above) = (low(width), rd(base + width));
+                for _ in 0..ops_per_stage {
+                    if let Some((sig, what)) = step() {
+                        if out.violations.len() < 20 {
+                            out.violations.push((label.clone(), sig, what));
+                        }
+                    }
+                    let (cur_low, cur_above) = (low(width), rd(base + width));
+                    let wrap_now = cur_low < prev_low;
+                    if wrap_now {
+                        wrapped = true;
+                    }
+                    if cur_above != prev_above {
+                        if wrap_now && cur_above == prev_above.wrapping_add(1) {
+                            carried_any = true;
+                        } else {
+                            above_moved_otherwise = true;
+                        }
+                    }
+                    prev_low = cur_low;
+                    prev_above = cur_above;
+                }
+                wrapped_any |= wrapped;
+                if margin == 12 || !wrapped {
+                    out.wraps_driven.push(format!("{}{}", label, if wrapped { " (and 15 more distances)" } else { " (the wrap was not reached)" }));
+                }
+                if !wrapped {
+                    break;
+                }
+            }
+            // the counter is wider only if the byte above moved with the wrap and at no other time
+            if !wrapped_any || !carried_any || above_moved_otherwise || width >= 4 {
+                break;
+            }
+            width *= 2;
+        }
+    }
+    out
+}
+
+/// The whole procedure with its bookkeeping: search, fast-forward, report.  `behind` names the operation(s) the workload
+/// drives (for the evidence).  Must be called while no other thread of the monitor is running.
+pub fn counter_wraps(rep: &mut crate::report::Report, behind: &str, step: &mut dyn FnMut() -> Option<(String, String)>, ops_per_stage: usize) {
+    let Some(regions) = exe_rw_regions() else {
+        rep.notes.push("static-counter search: the executable's writable mappings could not be read from /proc/self/maps; skipped".into());
+        return;
+    };
+    let mut steps = 0u64;
+    let mut counted = || {
+        steps += 1;
+        step()
+    };
+    let run = fast_forward_static_counters(&regions, &mut counted, ops_per_stage);
+    rep.evaluations += steps;
+    rep.count(&format!("static_counters_found_behind_{}", behind), run.counters_found as u64);
+    rep.count(&format!("static_counter_wraps_driven_behind_{}", behind), run.wraps_driven.len() as u64);
+    if let Some(n) = run.note {
+        rep.notes.push(format!("static-counter search ({}): {}", behind, n));
+    }
+    if run.counters_found == 0 {
+        rep.notes.push(format!("static-counter search: no word of static memory counts anything while {} operations of {} run (nothing process-wide to fast-forward)", steps, behind));
+    } else {
+        rep.notes.push(format!("static-counter search: {} counter(s) in static memory behind {}; driven across: {}", run.counters_found, behind, run.wraps_driven.join("; ")));
+    }
+    for (stage, sig, what) in run.violations {
+        rep.violate(
+            sig,
+            format!("with a {} (a value the counter reaches by itself): {}", stage, what),
+            crate::json::J::obj().with("kind", crate::json::J::s("static-counter-wrap")).with("behind", crate::json::J::s(behind)).with("stage", crate::json::J::s(stage)),
+        );
+    }
+}
